@@ -12,7 +12,7 @@ class Contract(object):
                  modifies=(), invariants=None, inline=False, on_raise=None, raises_when=None,
                  may_raise_app=True, ghost=None, self_cls=None, trusted=False, external=False,
                  note=None, props=(), generator=False, pure=True, loop_bounds=None, carries=(),
-                 ensures_fn=None, defaults=None, post_names=None, variants=None):
+                 ensures_fn=None, defaults=None, post_names=None, variants=None, definitions=None, unfold_depth=1):
         self.file, self.qualname = file, qualname
         self.params = OrderedDict(params or [])
         self.requires = requires or (lambda v: [])
@@ -31,6 +31,8 @@ class Contract(object):
         self.defaults = defaults or {}
         self.post_names = post_names
         self.ghost = ghost or {}
+        self.definitions = definitions     # lambda: [definitional axioms of opaque spec functions revealed inside this function only]
+        self.unfold_depth = unfold_depth
         self.key = (file, qualname)
 
 class ClassDecl(object):
